@@ -411,7 +411,7 @@ def selftest(tier):
 
 
 def meta(tier):
-    return {
+    m = {
         "functions": [TableMethod.add_rule_key, TableMethod._compute_shift, TableMethod._correct_gap,
                       TableMethod._process_queue, TableMethod._can_give_terms, TableMethod._increase_value,
                       TableMethod._set_infinite, TableMethod.is_pumping, TableMethod.pumping_subuniverse,
@@ -432,3 +432,5 @@ def meta(tier):
                         "typed into tests/test_forest.py and for cap stability",
                         "CrossHair path exhaustion (reachability twin per group guards vacuity)"],
     }
+    m["bounds"] = str(m.get("bounds", "")) + " || end-to-end groups of this run: " + e2e.describe_groups(groups(tier))
+    return m
